@@ -2,6 +2,7 @@ package index
 
 import (
 	"encoding/binary"
+	"encoding/json"
 	"fmt"
 	"math"
 	"math/rand"
@@ -21,21 +22,24 @@ import (
 
 const c56FillBase = 1000000
 
+// c56Look is written as the JSON array [tags, get, has, first] (TLC reads JSON slowly; tuples keep records small).
 type c56Look struct {
-	Tags  []int `json:"tags"`
-	Get   int   `json:"get"`
-	Has   bool  `json:"has"`
-	First int   `json:"first"`
+	Tags  []int
+	Get   int
+	Has   bool
+	First int
+}
+
+func (l c56Look) MarshalJSON() ([]byte, error) {
+	return json.Marshal([]any{l.Tags, l.Get, l.Has, l.First})
 }
 
 type c56Obs struct {
-	Len          int       `json:"len"`
-	Look         []c56Look `json:"look"`
-	Fill         []c56Look `json:"fill"`
-	IterT        []int     `json:"iter_t"`
-	FillSeen     int       `json:"fill_seen"`
-	FillDistinct int       `json:"fill_distinct"`
-	Bad          int       `json:"bad"`
+	Len  int       `json:"len"`
+	Look []c56Look `json:"look"`
+	Fill []c56Look `json:"fill"`
+	It   [4]int    `json:"it"` // tracked entries met by the iteration: seen, distinct tags, min tag, max tag
+	Fs   [3]int    `json:"fs"` // filler entries met, distinct fillers met, entries with foreign/corrupt payload or key
 }
 
 type c56Step struct {
@@ -142,13 +146,14 @@ type c56Index struct {
 	typ    restic.BlobType
 }
 
-func (t *c56Index) blobTag(pb *pack.PackedBlob, want *restic.ID) int {
+func (t *c56Index) blobTag(ppb *pack.PackedBlob, want *restic.ID) int {
+	pb := ppb.Blob
 	tag := int(pb.Offset)
 	off, l, u := c56Payload(tag)
 	if pb.Offset != uint(off) || pb.Length != uint(l) || pb.UncompressedLength != uint(u) || pb.Type != t.typ {
 		return -1
 	}
-	if p, ok := t.packOf[tag]; !ok || p != pb.PackID() {
+	if p, ok := t.packOf[tag]; !ok || p != ppb.PackID() {
 		return -1
 	}
 	if want != nil && pb.ID != *want {
@@ -208,7 +213,7 @@ func (t *c56Index) first(id restic.ID) int {
 }
 func (t *c56Index) iter(fn func(id restic.ID, tag int)) {
 	for pb := range t.idx.Values() {
-		fn(pb.ID, t.blobTag(pb, nil))
+		fn(pb.Blob.ID, t.blobTag(pb, nil))
 	}
 }
 func (t *c56Index) length() int { return int(t.idx.Len(t.typ)) }
@@ -366,7 +371,7 @@ func c56Execute(p c56Plan) c56Rec {
 	}
 	// fixed sample of filler numbers: the first ones, some in the middle, the last ones, and some never inserted
 	samp := map[int]bool{1: true, 2: true, 3: true, totalFill: true, totalFill - 1: true, totalFill + 1: true, totalFill + 7: true}
-	for len(samp) < 16 {
+	for tries := 0; len(samp) < 16 && tries < 300; tries++ {
 		samp[1+kr.Intn(totalFill+5)] = true
 	}
 	for j := range samp {
@@ -389,10 +394,17 @@ func c56Execute(p c56Plan) c56Rec {
 		tab = &c56Index{idx: NewIndex(), packOf: map[int]restic.ID{}, typ: []restic.BlobType{restic.DataBlob, restic.TreeBlob}[p.keyseed%2]}
 	}
 	look := func(id restic.ID) c56Look {
-		return c56Look{Tags: tab.lookup(id), Get: tab.get(id), Has: tab.has(id), First: tab.first(id)}
+		first := tab.first(id)
+		if first > math.MaxInt32-1 { // TLC integers are 32 bit; any such position is out of range anyway
+			first = math.MaxInt32 - 1
+		}
+		if first < -1 {
+			first = -3
+		}
+		return c56Look{Tags: tab.lookup(id), Get: tab.get(id), Has: tab.has(id), First: first}
 	}
 	observe := func(fillNow int) c56Obs {
-		o := c56Obs{Len: tab.length(), Look: []c56Look{}, Fill: []c56Look{}, IterT: []int{}}
+		o := c56Obs{Len: tab.length(), Look: []c56Look{}, Fill: []c56Look{}}
 		for _, k := range rec.Keys {
 			o.Look = append(o.Look, look(keyID[k]))
 		}
@@ -400,30 +412,44 @@ func c56Execute(p c56Plan) c56Rec {
 			o.Fill = append(o.Fill, look(c56FillID(p.fillMode, p.salt, j)))
 		}
 		seen := make([]bool, totalFill+2)
+		seenT := map[int]bool{}
 		tab.iter(func(id restic.ID, tag int) {
 			switch {
 			case tag < 0:
-				o.Bad++
+				o.Fs[2]++
 			case tag > c56FillBase:
 				j := tag - c56FillBase
 				if j > totalFill || id != c56FillID(p.fillMode, p.salt, j) {
-					o.Bad++
+					o.Fs[2]++
 					return
 				}
-				o.FillSeen++
+				o.Fs[0]++
 				if !seen[j] {
 					seen[j] = true
-					o.FillDistinct++
+					o.Fs[1]++
 				}
 			default:
 				if !tracked[id] {
-					o.Bad++
+					o.Fs[2]++
 					return
 				}
-				o.IterT = append(o.IterT, tag)
+				o.It[0]++
+				if !seenT[tag] {
+					seenT[tag] = true
+					o.It[1]++
+				}
+				if o.It[2] == 0 || tag < o.It[2] {
+					o.It[2] = tag
+				}
+				if tag > o.It[3] {
+					o.It[3] = tag
+				}
 			}
 		})
 		return o
+	}
+	for i := range rec.Steps {
+		rec.Steps[i].Obs = []c56Obs{}
 	}
 	func() {
 		defer func() {
@@ -434,7 +460,6 @@ func c56Execute(p c56Plan) c56Rec {
 		fillNow := 0
 		for i := range rec.Steps {
 			st := &rec.Steps[i]
-			st.Obs = []c56Obs{}
 			switch st.Op {
 			case "add":
 				tab.add(keyID[st.K], []int{st.T})
@@ -460,7 +485,7 @@ func TestVerif_C56(t *testing.T) {
 	recs := kit.NewNDJSON("recs.ndjson")
 	defer recs.Close()
 	r := kit.Rand(56)
-	n := kit.Pick(300, 3000)
+	n := kit.Pick(240, 3000)
 	emit := func(rec c56Rec) {
 		sig := rec.Mode + "|" + rec.KeyMode + "|" + rec.FillMode
 		maxLen, multi := 0, false
